@@ -107,6 +107,9 @@ class LineFileBase(SeqProp):
         src = self.path("src.txt")
         with open(src, "wb") as fh:
             fh.write(content.encode("utf-8"))
+        # the modification time of the source is the same for every case (cp -p, rsync -t, a coarse clock): a file object must
+        # not take the file for one it has seen before because path, size and time stamp coincide
+        os.utime(src, ns=(1_600_000_000_000_000_000, 1_600_000_000_000_000_000))
         index = None
         if m["index"][0] == "list":
             index = list(m["index"][1])
@@ -232,8 +235,13 @@ class LineFileBase(SeqProp):
                     elif k == "save":
                         le = dec_str(w[1])
                         dst = self.path("saved.txt")
-                        if os.path.exists(dst):
-                            os.remove(dst)
+                        if len(out) % 3 == 0:
+                            if os.path.exists(dst):
+                                os.remove(dst)
+                        else:
+                            # the target exists already and is longer than what is going to be written
+                            with open(dst, "wb") as fh_:
+                                fh_.write(b"stale line of an older, longer file\n" * 40 + content.encode("utf-8"))
                         if len(out) % 2:
                             f.save(dst, le) if le != "\n" else f.save(dst)
                         else:
